@@ -14,7 +14,7 @@ LEVEL = 'model_checking'
 RULE = ('(a) every history of depth <= D over the event menu {start (and take the first answer of) an enumeration of '
         'p(X) / retract(p(X)) / retract(p(a)) in a free slot (<= 2 suspended at once); step slot 1|2; close slot 1|2; '
         'asserta(p(c)); assertz(p(c)); retract(p(b)) once; retractall(p(a))} from the initial stores [] [a] [a,b] '
-        '[a,b,a] (and, over a 10-event alphabet with the partially bound patterns retract(p(f(X))) / retractall(p(f(_))) and clear(), from the store [f(a),b,f(b),f(a)]), replayed on a fresh engine through the Python API with the reference model (logical update view: '
+        '[a,b,a] (and, over a 10-event alphabet with the partially bound patterns retract(p(f(X))) / retractall(p(f(_))) and clear(), from the store [f(a),b,f(b),f(a)]; and over an 11-event alphabet with the ground call p(a) and asserta/assertz of p(a) from [a,b,a]), replayed on a fresh engine through the Python API with the reference model (logical update view: '
         'snapshot of fact identities when the goal starts; a retract skips facts that are gone) stepped alongside; after '
         'EVERY event the answer / exhaustion of the enumeration and the store read back must equal the model\'s. '
         '(b) every clause body of <= G goals over {p(X) p(Y) assertz(p(c)) asserta(p(c)) retract(p(X)) retract(p(Y)) '
@@ -30,11 +30,16 @@ X = V('X')
 a, b, c = A('a'), A('b'), A('c')
 fa, fb = F('f', a), F('f', b)
 INITIAL = [[], [a], [a, b], [a, b, a], [fa, b, fb, fa]]
-STARTS = {'q': F('p', X), 'rX': F('retract', F('p', X)), 'ra': F('retract', F('p', a)), 'rf': F('retract', F('p', F('f', X)))}
+STARTS = {'qa': F('p', a), 'q': F('p', X), 'rX': F('retract', F('p', X)), 'ra': F('retract', F('p', a)), 'rf': F('retract', F('p', F('f', X)))}
 EVENTS = ['start:q', 'start:rX', 'start:ra', 'step:1', 'step:2', 'close:1', 'close:2',
           'asserta', 'assertz', 'retract_b', 'retractall_a']
 # a second alphabet for the store with structured facts: partially bound retract patterns
 STRUCT_EVENTS = ['start:q', 'start:rf', 'start:rX', 'step:1', 'step:2', 'close:1', 'assertz', 'retractall_f', 'retract_b', 'clear']
+
+
+# a third alphabet: enumerations whose argument is BOUND (a call p(a) visits the facts p(a) only) while
+# facts matching / not matching that argument are added and removed
+BOUND_EVENTS = ['start:qa', 'start:q', 'start:ra', 'step:1', 'step:2', 'close:1', 'asserta_a', 'assertz_a', 'assertz', 'retract_b', 'retractall_a']
 
 
 def bounds(tier):
@@ -94,7 +99,11 @@ class Run:
         if ev == 'clear':
             w.clear()
             return ('cleared',)
-        if ev == 'asserta':
+        if ev == 'asserta_a':
+            goal = F('asserta', F('p', a))
+        elif ev == 'assertz_a':
+            goal = F('assertz', F('p', a))
+        elif ev == 'asserta':
             goal = F('asserta', F('p', c))
         elif ev == 'assertz':
             goal = F('assertz', F('p', c))
@@ -227,6 +236,7 @@ def run_shard(spec):
         _, depth, k, n = spec
         work = [(idx, hist, ii) for idx, hist in enumerate(histories(depth)) if idx % n == k for ii in range(4)]
         work += [(10 ** 7 + idx, hist, 4) for idx, hist in enumerate(itertools.product(STRUCT_EVENTS, repeat=depth)) if idx % n == k]
+        work += [(2 * 10 ** 7 + idx, hist, 3) for idx, hist in enumerate(itertools.product(BOUND_EVENTS, repeat=depth)) if idx % n == k]
         for idx, hist, ii in work:
             init = INITIAL[ii]
             if True:
